@@ -179,6 +179,29 @@ def run(ctx):
     wr = [1 for bi, st, pl, fs in rmn.field_writes() if fs and fs[-1][0] == 'assignment']
     ctx.ob('R05.6', 'reset_mn_task|back to an empty sn assignment', bool(wr) and bool(rmn.call_blocks(WA + '::empty_sn')), 'a freed multi-node worker gets a fresh empty single-node assignment', rmn.loc())
 
+    # ---- R05.7 the time stamp of a scheduling round is taken after the last suspension point
+    ctx.rule('R05.7', 'lifetime gate uses a fresh clock: every path from an await of scheduler_loop to run_scheduling passes an Instant::now() whose value is the `now` argument (a stamp taken before a sleep over-estimates the remaining lifetime of every worker)')
+    SCHED = T + 'scheduler::main::'
+    slc = [prog.bodies[p_] for p_ in prog.with_closures(SCHED + 'scheduler_loop') if prog.bodies[p_].kind == 'coroutine']
+    ctx.require(slc, 'R05.7: scheduler_loop coroutine')
+    sl = slc[0]
+    rsb = sl.call_blocks(SCHED + 'run_scheduling')
+    ctx.floor('R05.7', len(rsb), 1, 'run_scheduling calls in scheduler_loop')
+    for rb in rsb:
+        al = op_local(sl.term[rb]['args'][2])
+        src = sl.derived_from(al, through_mutation=False) if al is not None else set()
+        nows = [bi for bi in sl.call_blocks(lambda c: c.endswith('time::Instant::now')) if sl.term[bi]['d'][0] in src]
+        ctx.ob('R05.7', 'scheduler_loop|now argument comes from Instant::now', bool(nows), 'the time stamp handed to run_scheduling is read from the clock inside the loop', sl.loc(rb))
+        stale = {'before the round': [], 'retry after NeedMoreCompute': []}
+        for y in sl.yields():
+            succ = [x for x in sl.succ[y] if not sl.cleanup[x]]
+            if rb in sl.reach_from(succ, avoid=nows):
+                stale['retry after NeedMoreCompute' if sl.dominates(rb, y) else 'before the round'].append(y)
+        for k_, ys in stale.items():
+            ctx.ob('R05.7', f'scheduler_loop|fresh time stamp|{k_}', not ys,
+                   f'no await ({k_}) lies between the clock read and the scheduling round that uses it' + (f' (await at {sl.loc(ys[0])} reaches run_scheduling without a new Instant::now())' if ys else ''),
+                   sl.loc(ys[0]) if ys else sl.loc(rb))
+
     # ---- R05.5 reactor rows + mapping rows
     n = reactor_table.run_rows(ctx, 'R05.5', 'C05')
     ctx.floor('R05.5', n, 20, 'reactor rows for C05')
